@@ -47,68 +47,59 @@ def strip_conv(t):
     return t
 
 
-def state_dispatch(body, state_local, loop_blocks):
-    """the `match state {..}` after the scan loop: (block, {variant: arm target}) or None"""
-    for b in range(len(body.blocks)):
-        if b in loop_blocks or body.is_cleanup(b) or body.blocks[b].get("dead"):
+def sname(v):
+    """printable name of a scan state: the variant's name, or true/false for a flag"""
+    return v[2] if v[0] == "variant" else str(v[1])
+
+
+def exit_region(body, S, loop_blocks, start, state):
+    """blocks that can execute after the scan leaves the loop at `start` with the scan state `state`: every test of the
+    state on the way is resolved with that value, every other branch is followed both ways"""
+    seen = set()
+    work = [start]
+    while work:
+        b = work.pop()
+        if b in seen or b in loop_blocks or body.is_cleanup(b):
             continue
-        sl = scanact.switch_local(body, b)
-        if sl is not None and sl[0] == state_local and sl[1]:
-            arms = {}
-            for (lab, tg) in body.edges(b):
-                if lab != "otherwise" and lab[1] < len(sl[2]):
-                    arms.setdefault(sl[2][lab[1]], tg)
-            return b, arms
-    return None
+        seen.add(b)
+        t = body.term(b)
+        nxt = body.succs(b)
+        if t["t"] == "switch":
+            sl = scanact.switch_local(body, b)
+            if sl is not None and sl[0] == S:
+                local, is_d, variants_, neg = sl
+                keep = []
+                for (lab, tg) in body.edges(b):
+                    if is_d and state[0] == "variant":
+                        idx = list(variants_).index(state[2]) if state[2] in variants_ else None
+                        others = [l_[1] for (l_, _) in body.edges(b) if l_ != "otherwise"]
+                        if (lab != "otherwise" and lab[1] == idx) or (lab == "otherwise" and idx not in others):
+                            keep.append(tg)
+                    elif not is_d and state[0] == "bool":
+                        val = state[1] != neg
+                        if (lab == ("sw", 0) and not val) or (lab == "otherwise" and val):
+                            keep.append(tg)
+                    else:
+                        keep.append(tg)
+                nxt = keep
+        work.extend(nxt)
+    return seen
 
 
-def bypass_state(body, dispatch, exit_bb):
-    """A loop exit that jumps straight into one arm of the state match (`return State::V` out of an inlined scan helper,
-    threaded past the match) leaves the scan *as if* in state V.  Returns (V, blocks walked) or None when the exit reaches
-    the match itself."""
-    if dispatch is None:
-        return None
-    D, arms = dispatch
-    targets = {}
-    for v, tg in arms.items():
-        targets.setdefault(tg, []).append(v)
-    cur = exit_bb
-    walked = []
-    for _ in range(8):
-        if cur == D:
-            return None
-        if cur in targets:
-            return (targets[cur][0], walked) if len(targets[cur]) == 1 else None
-        t = body.term(cur)
-        if t["t"] != "goto" or not all(st.get("s") != "assign" or st["rv"]["r"] in ("use", "discr", "aggregate") for st in body.blocks[cur]["stmts"]):
-            return None
-        walked.append(cur)
-        cur = t["target"]
-    return None
-
-
-def post_loop_actions(facts, body, state_local, variants, subject_ok, dispatch=None, bypass_blocks=()):
+def post_loop_actions(facts, body, state_local, variants, subject_ok, regions=None):
     """variant -> action in {'id','ascii_lower','unicode_lower','?...'} read from the code after the scan loop."""
     acts = {}
-    arm_entry = {}
-    if dispatch is not None and bypass_blocks:
-        D, arms = dispatch
-        for v, tg in arms.items():
-            # the arm is entered only from the match and from the by-passing exits accounted for as state v
-            if all(p == D or p in bypass_blocks for p in body.preds()[tg] if not body.is_cleanup(p)) and list(arms.values()).count(tg) == 1:
-                arm_entry[tg] = v
 
     # which blocks are guarded by `state is V`
     def variant_of(bb):
+        if regions is not None:
+            return set(n_ for n_, blks in regions.items() if bb in blks)
         vs = set()
         for gb, a in atoms_at(body, bb):
             sl = scanact.switch_local(body, gb)
             if sl is not None and sl[0] == state_local and a[0] in ("is", "isin"):
                 if a[0] == "is":
                     vs.add(a[2])
-        for tg, v in arm_entry.items():
-            if body.dominates(tg, bb):
-                vs.add(v)
         return vs
 
     effs = models.mut_effects(body)
@@ -192,16 +183,18 @@ def guardxform_obligations(ctx, facts, key, rule="GUARDXFORM"):
     if len(st) != 1:
         raise AnchorError("expected one loop-carried state variable, found %d" % len(st), key)
     S = next(iter(st))
-    variants = sorted(v[2] for v in st[S]["values"] if v[0] == "variant")
+    values = {sname(v): v for v in st[S]["values"]}
     # initial state: the constant assigned in a block dominating the loop header
     inits = []
     for (b, i, kind, payload) in body.defs()[S]:
         if body.dominates(b, loop["header"]) and b not in loop["blocks"]:
             v = scanact.const_state_value(strip(body._rv_term(payload)))
-            inits.append(v[2])
+            if v is not None:
+                inits.append(v)
+                values[sname(v)] = v
     if len(inits) != 1:
         raise AnchorError("initial scan state not unique", key)
-    init = inits[0]
+    init = sname(inits[0])
     # partition check
     U = boolsum.universe()
     sets = [scanact.cond_set(p["conds"], facts) for p in paths]
@@ -212,46 +205,71 @@ def guardxform_obligations(ctx, facts, key, rule="GUARDXFORM"):
             disjoint = False
         union |= a
     ctx.ob(rule, "%s: the loop body's branch conditions partition the char domain" % key, union == U and disjoint and not any(p["pre"] for p in paths), fn=key, site=site, detail="%d paths; union complete=%s disjoint=%s" % (len(paths), union == U, disjoint))
-    # abstract run: seen[state] = chars that may have been consumed while ending up in `state`
-    dispatch = state_dispatch(body, S, loop["blocks"])
-    bypass_blocks = set()
+    # abstract run: seen[state] = chars that may have been consumed while ending up in `state`; every way out of the loop is
+    # an exit (block, state, chars that the text may consist of)
     seen = {init: 0}
-    final = {}
     reached = {init}
+    breaks = {}
     changed = True
     while changed:
         changed = False
-        for s in list(reached):
-            for p, cs in zip(paths, sets):
+        for s_ in list(reached):
+            for pi, (p, cs) in enumerate(zip(paths, sets)):
                 if cs == 0:
                     continue
-                s2 = p["assign"].get(S, ("variant", None, s))[2]
+                asg = p["assign"].get(S)
+                if asg is not None:
+                    values[sname(asg)] = asg
+                s2 = sname(asg) if asg is not None else s_
                 if p["exit"] == "continue":
-                    new = seen.get(s, 0) | cs
+                    new = seen.get(s_, 0) | cs
                     if s2 not in reached or (seen.get(s2, 0) | new) != seen.get(s2, 0):
                         reached.add(s2)
                         seen[s2] = seen.get(s2, 0) | new
                         changed = True
                 elif p["exit"] == "break":
-                    by = bypass_state(body, dispatch, p["blocks"][-1])
-                    if by is not None:
-                        s2 = by[0]
-                        bypass_blocks.update(by[1])
-                        bypass_blocks.add(p["blocks"][-2])
-                    if final.get(s2) != U:
-                        final[s2] = U  # the unscanned rest of the string is arbitrary
+                    if (pi, s2) not in breaks:
+                        breaks[(pi, s2)] = (p["blocks"][-1], asg is not None)
                         changed = True
                 else:
                     raise AnchorError("loop path leaves the function", key)
-    for s in reached:
-        final[s] = final.get(s, 0) | seen.get(s, 0)
-    variants = sorted(set(variants) | set(v for v in final if isinstance(v, str)))   # states only a by-passing exit produces
-    actions = post_loop_actions(facts, body, S, variants, subject_ok, dispatch, bypass_blocks)
-    for v in variants:
-        act = actions.get(v, "?none")
+    if exit_none is None:
+        raise AnchorError("scan loop has no exhaustion exit", key)
+    # group the exits by the code they run afterwards
+    exits = []   # (name, region, chars)
+    for s_ in sorted(reached):
+        exits.append(("done", s_, exit_region(body, S, loop["blocks"], exit_none, values[s_]), seen.get(s_, 0)))
+    for (pi, s2), (xb, assigned) in sorted(breaks.items(), key=lambda kv: (kv[0][1], kv[0][0])):
+        exits.append(("break", s2, exit_region(body, S, loop["blocks"], xb, values[s2]), U))   # the unscanned rest is arbitrary
+    groups = {}
+    for kind, s_, region, chars in exits:
+        groups.setdefault(s_, []).append((kind, region, chars))
+    regions = {}
+    final = {}
+    for s_, members in groups.items():
+        # exits in the same state run the same code, unless an early exit is routed past the state match (a `return` of an
+        # inlined scan helper, an `Err(())` of a try_fold): then it is a final situation of its own
+        base = [m for m in members if m[0] == "done"] or members
+        same = [m for m in members if m[1] == base[0][1]]
+        diff = [m for m in members if m[1] != base[0][1]]
+        regions[s_] = base[0][1]
+        final[s_] = 0
+        for m in same:
+            final[s_] |= m[2]
+        for n_, m in enumerate(diff):
+            nm = "early exit %d from %s" % (n_ + 1, s_) if len(diff) > 1 else "early exit from %s" % s_
+            regions[nm] = m[1]
+            final[nm] = m[2]
+    # code common to every exit says nothing about any of them
+    common = set.intersection(*regions.values()) if regions else set()
+    regions = {n_: r_ - common for n_, r_ in regions.items()}
+    variants = sorted(regions)
+    actions = post_loop_actions(facts, body, S, variants, subject_ok, regions=regions)
+    for v in sorted(set(values) | set(variants)):
         if v not in final:
             ctx.ob(rule, "%s: state %s is unreachable" % (key, v), True, fn=key, site=site, detail="no transition leads to it", nontrivial=False)
             continue
+        act = actions.get(v, "?none")
         if act.startswith("?"):
             ctx.ob(rule, "%s: action taken in final state %s is understood" % (key, v), False, fn=key, site=site, detail=act)
             continue
